@@ -31,7 +31,7 @@ Proof. destruct w; reflexivity. Qed.
 
 Section Steps.
   Variables (locked : bool) (k : nat) (reqs : list reqstep).
-  Notation cstep := (cstep locked k reqs).
+  Notation cstep := (cstep locked reqs).
 
   Lemma cstep_CL cs l cs' : cstep cs (CL l) = Some cs' ->
     exists st', step (c_lock cs) l = Some st' /\
@@ -48,7 +48,7 @@ Section Steps.
   Lemma cstep_CLook cs g cs' : cstep cs (CLook g) = Some cs' ->
     exists r s1 f c b,
       nth_error (c_ph cs) g = Some PIdle /\ nth_error reqs g = Some r /\
-      (locked = true -> holds_key (c_lock cs) g k = true) /\
+      (locked = true -> plain_on k r -> holds_key (c_lock cs) g k = true) /\
       start_lookup (rq_prepare (set_evs (c_st cs) []) r) (rq_request (jar_of (c_jars cs) (rq_client r)) r)
         = (s1, f, c, b) /\
       cs' = mkC (c_lock cs) s1 (c_jars cs)
@@ -56,11 +56,11 @@ Section Steps.
   Proof.
     cbn [StartConc.cstep]. intro H.
     destruct (nth_error (c_ph cs) g) as [[]|]; try discriminate.
-    destruct (nth_error reqs g) as [r|]; [|discriminate].
-    destruct (negb locked || holds_key (c_lock cs) g k) eqn:Eg; [|discriminate].
+    destruct (nth_error reqs g) as [r|]; [|discriminate]. cbv zeta in H.
+    destruct (negb locked || _) eqn:Eg; [|discriminate].
     destruct (start_lookup _ _) as [[[s1 f] c] b] eqn:El. injection H as <-.
     exists r, s1, f, c, b. repeat split; auto.
-    intros ->. exact Eg.
+    intros -> Hpl. rewrite (plain_lock_key k r _ Hpl) in Eg. exact Eg.
   Qed.
 
   Lemma cstep_CRest cs g cs' : cstep cs (CRest g) = Some cs' ->
@@ -91,7 +91,7 @@ End Steps.
 
 Section Locked.
   Variables (k : nat) (reqs : list reqstep) (w0 : world).
-  Notation cstep := (cstep true k reqs).
+  Notation cstep := (cstep true reqs).
   Notation serial := (serial reqs w0).
 
   Definition world_of (cs : cstate) : world := mkWorld (c_st cs) (c_jars cs).
@@ -160,16 +160,16 @@ Section Locked.
   Proof.
     intros (HI & HP & HW) Hs Ha. destruct lab as [l|g|g|d].
     - (* a step of the lock protocol: the world side is untouched *)
-      destruct (cstep_CL _ _ _ _ _ _ Hs) as (st' & Hl & -> & Hret). cbn [cadm] in Ha.
+      destruct (cstep_CL _ _ _ _ _ Hs) as (st' & Hl & -> & Hret). cbn [cadm] in Ha.
       split; [exact (inv_step _ _ _ Hl Ha HI)|]. split; [exact (PC_lock _ _ _ _ _ HP Hl Hret)|]. exact HW.
     - (* look-up *)
-      destruct (cstep_CLook _ _ _ _ _ _ Hs) as (r & s1 & f & c & b & Hp & Hr & Hh & El & ->).
-      specialize (Hh eq_refl). destruct (holds_key_spec _ _ _ Hh) as [r2 Hg2].
+      destruct (cstep_CLook true k reqs _ _ _ Hs) as (r & s1 & f & c & b & Hp & Hr & Hh & El & ->).
+      specialize (Hh eq_refl (PC_plain _ _ _ _ _ HP Hr)). destruct (holds_key_spec _ _ _ Hh) as [r2 Hg2].
       assert (Hnone : existsb is_looked (c_ph cs) = false).
       { apply (none_looked cs g HI HP Hh). rewrite (nth_error_nth _ _ _ Hp). reflexivity. }
       split; [exact HI|]. split.
       { apply (PC_phase k reqs cs g _ PIdle _ _ _ _ HP Hg2 Hp).
-        cbn [gp_ok gc gscript]. destruct HP as (_ & _ & H). specialize (H _ _ _ Hg2 Hp).
+        cbn [gp_ok gc gscript]. destruct HP as (_ & _ & H & _). specialize (H _ _ _ Hg2 Hp).
         cbn [gp_ok gc gscript] in H. destruct r2; [|discriminate]. exact H. }
       destruct HW as (W1 & W2 & W3 & W4). unfold WI. cbn [c_ph c_acts c_st c_jars].
       pose proof (W2 Hnone) as Hw. unfold world_of in Hw.
@@ -185,7 +185,7 @@ Section Locked.
         destruct (Nat.eqb g g') eqn:Eg; [|tauto]. apply Nat.eqb_eq in Eg. subst g'. rewrite Hp.
         split; discriminate.
     - (* the rest of Start *)
-      destruct (cstep_CRest _ _ _ _ _ _ Hs) as (s0 & jar & f & c & b & r & w' & o & Hp & Hr & Ef & ->).
+      destruct (cstep_CRest _ _ _ _ _ Hs) as (s0 & jar & f & c & b & r & w' & o & Hp & Hr & Ef & ->).
       pose proof (PC_looked_holds _ _ _ _ _ _ _ _ _ HP Hp) as Hg.
       split; [exact HI|]. split.
       { apply (PC_phase k reqs cs g _ _ _ _ _ _ HP Hg Hp). cbn [gp_ok gc gscript]. apply Nat.eqb_refl. }
@@ -213,7 +213,7 @@ Section Locked.
       + constructor; [|exact W4]. intro Hin. apply in_map_iff in Hin as ([g' o'] & E & Hin). cbn [fst] in E. subst g'.
         apply W3 in Hin. congruence.
     - (* the clock *)
-      destruct (cstep_CTick _ _ _ _ _ _ Hs) as (Hnone & ->).
+      destruct (cstep_CTick _ _ _ _ _ Hs) as (Hnone & ->).
       split; [exact HI|]. split; [exact HP|].
       destruct HW as (W1 & W2 & W3 & W4). unfold WI. cbn [c_ph c_acts c_st c_jars].
       cbn [StartConc.serial]. destruct (serial (c_acts cs)) as [W res] eqn:ES. cbn [fst snd] in *.
@@ -225,7 +225,7 @@ Section Locked.
   Qed.
 
   Theorem ci_run : forall ls cs cs',
-    CI cs -> crun true k reqs cs ls = Some cs' -> cadm_run true k reqs cs ls -> CI cs'.
+    CI cs -> crun true reqs cs ls = Some cs' -> cadm_run true reqs cs ls -> CI cs'.
   Proof.
     induction ls as [|l ls IH]; intros cs cs' HC Hr Ha; cbn [crun cadm_run] in *.
     - injection Hr as <-. exact HC.
@@ -259,7 +259,7 @@ Section Locked.
   Theorem all_served_perm cs : CI cs -> forallb is_done (c_ph cs) = true ->
     Permutation (map fst (snd (serial (c_acts cs)))) (seq 0 (length reqs)).
   Proof.
-    intros (_ & (L1 & L2 & _) & _ & _ & W3 & W4) Hall.
+    intros (_ & (L1 & L2 & _ & _) & _ & _ & W3 & W4) Hall.
     apply NoDup_Permutation; [exact W4 | apply seq_NoDup|].
     intro g. rewrite in_seq. split.
     - intro Hin. apply in_map_iff in Hin as ([g' o] & E & Hin). cbn [fst] in E. subst g'. apply W3 in Hin.
@@ -272,11 +272,12 @@ Section Locked.
 End Locked.
 
 (* the initial state of the composed system is an initial state of the invariant *)
-Lemma cinit_ci0 k reqs w purges : CI0 k reqs w (cinit k reqs w purges).
+Lemma cinit_ci0 k reqs w purges : Forall (plain_on k) reqs -> CI0 k reqs w (cinit k reqs w purges).
 Proof.
-  unfold CI0, cinit. cbn [c_lock c_ph c_acts].
+  intro HK. unfold CI0, cinit. cbn [c_lock c_ph c_acts].
   split; [apply inv_init|]. split; [|split; [|split; [reflexivity | apply world_eta]]].
   - unfold PC. cbn [c_lock c_ph init gs]. rewrite !map_length. split; [reflexivity|]. split; [reflexivity|].
+    split; [|exact HK].
     intros g x p Hx Hp. apply nth_error_In in Hx. apply nth_error_In in Hp.
     apply in_map_iff in Hx as (sc & <- & Hsc). apply in_map_iff in Hsc as (r1 & <- & _).
     apply in_map_iff in Hp as (r2 & <- & _). cbn [gp_ok gc gscript]. apply Nat.eqb_refl.
